@@ -26,14 +26,15 @@ AT_TEXT = z3.Function("mark_at_text", IntS, StrS)      # text of an '@word<blank
 
 def axioms():
     """A-RE (assumed): R1 ordering/extent, R2 kinds, R4 every '@' mark is directly followed by a '{' mark."""
-    i = z3.Int("i!re")
+    i, j = z3.Int("i!re"), z3.Int("j!re")
     inr = z3.And(0 <= i, i < N)
     return [
         N >= 0, L >= 1,
         z3.ForAll([i], z3.Implies(inr, z3.And(0 <= z3.Select(MS, i), z3.Select(MS, i) < z3.Select(ME, i), z3.Select(ME, i) <= L,
                                                1 <= z3.Select(MK, i), z3.Select(MK, i) <= 7,
                                                z3.Implies(z3.Select(MK, i) != AT, z3.Select(ME, i) == z3.Select(MS, i) + 1)))),
-        z3.ForAll([i], z3.Implies(z3.And(0 <= i, i + 1 < N), z3.Select(ME, i) <= z3.Select(MS, i + 1))),
+        z3.ForAll([i, j], z3.Implies(z3.And(0 <= i, i < j, j < N), z3.Select(ME, i) <= z3.Select(MS, j)),
+                  patterns=[z3.MultiPattern(z3.Select(ME, i), z3.Select(MS, j))]),
         z3.ForAll([i], z3.Implies(z3.And(inr, z3.Select(MK, i) == AT),
                                   z3.And(i + 1 < N, z3.Select(MK, i + 1) == LB, z3.Select(MS, i + 1) == z3.Select(ME, i)))),
         z3.ForAll([i], z3.Implies(z3.And(inr, z3.Select(MK, i) == AT),
